@@ -75,6 +75,19 @@ func (f *seqFailures) flush(rep *report.Report, section string) {
 	}
 }
 
+// pick selects scenarios by name prefix.
+func pick(scs []*scen, prefixes ...string) []*scen {
+	var out []*scen
+	for _, sc := range scs {
+		for _, p := range prefixes {
+			if strings.HasPrefix(sc.Name, p) {
+				out = append(out, sc)
+			}
+		}
+	}
+	return out
+}
+
 // runSeq runs the sequential store search for the given property.
 func runSeq(env *report.Env, rep *report.Report, prop string, depthQuick, depthThorough int, withRestartCheck bool) {
 	runSeqCfgs(env, rep, prop, depthQuick, depthThorough, withRestartCheck, seqConfigs())
@@ -141,7 +154,8 @@ func TestCheck(t *testing.T) {
 		if env.Shard == 0 {
 			runSeq(env, rep, "C19", 4, 7, false)
 		}
-		runSched(t, env, rep, map[string]bool{"C19": true}, "sched-handle-taken-while-a-poll-is-in-flight", lookupScenarios()[2:3], 2, 3)
+		runSched(t, env, rep, map[string]bool{"C19": true}, "sched-handle-taken-while-a-poll-is-in-flight", pick(lookupScenarios(), "S4 "), 2, 3)
+		runSched(t, env, rep, map[string]bool{"C19": true}, "sched-cache-writes-of-polls-and-lookups", pick(lookupScenarios(), "S2 ", "S9 "), 2, 3)
 	case "C10":
 		checkC10(t, env, rep)
 	case "C11":
@@ -156,6 +170,7 @@ func TestCheck(t *testing.T) {
 		}
 		runSched(t, env, rep, map[string]bool{"C11": true}, "sched-polls-and-refreshes", pollScenarios(), 2, 3)
 		runSched(t, env, rep, map[string]bool{"C11": true}, "sched-ticker-cadence-virtual-time", cadenceScenarios(), 2, 3)
+		runSched(t, env, rep, map[string]bool{"C11": true}, "sched-polls-racing-lookups", pick(lookupScenarios(), "S2 ", "S9 ", "S6 "), 2, 3)
 	case "C12":
 		rep.Assumptions = []string{"server-side changes in the concurrent scenarios only move forward, so 'follows the order in which polls installed them' is judged as non-decreasing version numbers per reader", "absence of data races is not decided by this check (a cooperative scheduler hides them); see DESIGN.md §2.7"}
 		all := append(pollScenarios(), lookupScenarios()...)
